@@ -97,7 +97,7 @@ Definition chk_will_change (p : str) (subs : subs_t) (ops : list (bool * list st
 
 (* glob.glob(pattern, recursive=True, include_hidden=True) on a finite tree *)
 Definition chk_globsem (t : list entry) (pat : str) (exp : list str) : bool :=
-  set_eqb_str (glob_paths t pat) exp.
+  set_eqb_str (glob_paths_raw t pat) exp.
 
 (* the whole of NamedGlob(p, subs).glob() on a tree: candidates from the glob model for the
    translated pattern, filtered and grouped by the regex model *)
